@@ -43,3 +43,22 @@ func setSimClock(t int64, onRead func(site string)) {
 // setStmtHook installs f before every statement of the instrumented rule bodies and helpers
 // (nil removes it).
 func setStmtHook(f func(site string)) { verifyield.SHook = f }
+
+// setSimTimers hands the timers of instrumented code to the simulation: every timer, ticker or sleep
+// started there is reported to onStart; with early set it fires at once instead of after the time asked
+// for (the machine is slow, the process was stopped for a while: whatever was to take that long is over).
+func setSimTimers(on bool, early bool, onStart func(site string)) {
+	if !on {
+		verifyield.Timers = nil
+		return
+	}
+	verifyield.Timers = func(site string, d time.Duration) time.Duration {
+		if onStart != nil {
+			onStart(site)
+		}
+		if early {
+			return 0
+		}
+		return d
+	}
+}
